@@ -129,6 +129,12 @@ func isKnown(k int64) bool {
 	return false
 }
 
+// NearMissProfileNames are NOT registered profile names, but differ from the
+// profile-2 name only in ways a URL-normalising comparison would ignore.
+var NearMissProfileNames = []string{"HTTP://arm.com/psa/2.0.0", "Http://arm.com/psa/2.0.0", "http://arm.com/psa/2.0.0#", "http://arm.com/psa/2.0.0?",
+	"http://ARM.com/psa/2.0.0", "http://arm.com:80/psa/2.0.0", "http://arm.com/psa/2.0.0/", "http://arm.com/psa/2.0.0 ", " http://arm.com/psa/2.0.0",
+	"http://arm.com/psa/./2.0.0", "http://arm.com/psa/2.0.0\x00", "http://arm.com/psa/2%2E0.0", "https://arm.com/psa/2.0.0", "//arm.com/psa/2.0.0"}
+
 func (g *Gen) UnknownKey() *refcbor.Node {
 	switch g.R.Intn(4) {
 	case 0:
@@ -264,7 +270,13 @@ func (g *Gen) WireEdit(p int, w *refcbor.Node) string {
 		return "other-profile-keys"
 	case 14:
 		// profile selector games
-		switch g.R.Intn(5) {
+		switch g.R.Intn(6) {
+		case 5:
+			// names that a normalising comparison (URL scheme case, empty
+			// fragment, default port ...) could confuse with a registered one
+			nm := NearMissProfileNames[g.R.Intn(len(NearMissProfileNames))]
+			mapSet(w, P2KProfile, refcbor.Tstr(nm))
+			return "265=near-miss"
 		case 0:
 			mapSet(w, P2KProfile, refcbor.Tstr("http://unknown.example/profile"))
 			return "265=unknown"
